@@ -20,6 +20,8 @@ func NewFunction(declaration *ast.FunctionStmt, closure *environment.Environment
 }
 
 func (f *Function) Call(i *Interpreter, arguments []interface{}) (interface{}, error) {
+	verifEnter()
+	defer verifLeave()
 	functionEnv := environment.NewEnvironmentWithParent(f.Closure)
 
 	functionEnv.Define(f.Declaration.Name.Lexeme, f)
